@@ -21,12 +21,14 @@ warnings.simplefilter("ignore")
 def make(kind_name, factor=None):
     """kinds of harness.learners plus wrappers: 'bal:<kind>' (3 children), 'ds:<kind>'"""
     if kind_name.startswith("bal:"):
-        k = L.KINDS[kind_name[4:]]
+        # "bal:<kind>" default strategy; "bal:cycle:<kind>", "bal:npoints:<kind>", "bal:loss:<kind>"
+        parts = kind_name.split(":")
+        k = L.KINDS[parts[-1]]
         kids = [k.make() for _ in range(3)]
         for c in kids:
             if factor is not None and hasattr(c, "_recompute_losses_factor"):
                 c._recompute_losses_factor = factor
-        return adaptive.BalancingLearner(kids)
+        return adaptive.BalancingLearner(kids, strategy=parts[1] if len(parts) == 3 else "loss_improvements")
     if kind_name.startswith("ds:"):
         import operator
         k = L.KINDS[kind_name[3:]]
@@ -90,7 +92,7 @@ def pend_key(kind_name, p):
 
 def data_keys(kind_name, l):
     if kind_name.startswith("bal:"):
-        b = kind_name[4:]
+        b = kind_name.split(":")[-1]
         return {(i, L.canon(k)) for i, c in enumerate(l.learners) for k in c.data}
     return {L.canon(k) for k in l.data}
 
